@@ -19,3 +19,21 @@ package memoize
 //@   modifies inferred
 //@   ensures balanced: forall mx *sync.Mutex :: mx.held == old(mx.held)
 //@   ensures keepsGoing: result
+
+// guarded_by discipline of a cache entry (C06): the owner set and the deleted mark of an entry that other goroutines
+// can reach are read and written only while the entry's mutex is held; an entry allocated by the running call and not
+// yet published is exempt. (`guards`: one obligation of class `guarded` at every place the body touches the field.)
+//@ func (*Memoizer).addOwner extend props C06
+//@   guards entry.owners by ownersUnderLock: self.mu.held || fresh(self)
+//@   guards entry.deleted by deletedUnderLock: self.mu.held || fresh(self)
+//@ func Release$1 extend props C06
+//@   guards entry.owners by ownersUnderLock: self.mu.held || fresh(self)
+//@   guards entry.deleted by deletedUnderLock: self.mu.held || fresh(self)
+//@ func (*Memoizer).Do props C06,C13 nosafety
+//@   modifies inferred
+//@   guards entry.owners by ownersUnderLock: self.mu.held || fresh(self)
+//@   guards entry.deleted by deletedUnderLock: self.mu.held || fresh(self)
+//@ func (*Memoizer).Do$1 props C06,C13 nosafety
+//@   modifies inferred
+//@   guards entry.owners by ownersUnderLock: self.mu.held || fresh(self)
+//@   guards entry.deleted by deletedUnderLock: self.mu.held || fresh(self)
